@@ -26,6 +26,8 @@ void MessageAllocationMetadata::reserve(
   for (auto& field : _fields) {
     field.reserve(message, reflection, arena);
   }
+  // reserving goes through the mutable accessors, which mark fields as present
+  message.Clear();
 }
 
 MessageAllocationMetadata::FieldAllocationMetadata::FieldAllocationMetadata(
